@@ -130,17 +130,90 @@ class _StatResult:
         self.st_mtime = 0
 
 
-class _ShimOS:
-    """Stands in for the ``os`` module inside simfile._private.nativeosfs."""
+# Every path the native facade hands to the library lives under this prefix, so that a
+# call can be routed by its path alone: under the prefix -> simulated disk, anything
+# else -> the real function (the harness's own files, the interpreter's imports).
+SIM_ROOT = "/simv-root-7f3a"
 
-    path = posixpath
+
+def _sim_path(path):
+    """The simulated-disk path for a path under SIM_ROOT, else None."""
+    try:
+        p = _real_os.fspath(path)
+    except TypeError:
+        return None
+    if isinstance(p, bytes):
+        p = p.decode("utf-8", "surrogateescape")
+    if p == SIM_ROOT:
+        return "/"
+    if p.startswith(SIM_ROOT + "/"):
+        return p[len(SIM_ROOT):]
+    return None
+
+
+_REAL = {
+    "listdir": _real_os.listdir, "stat": _real_os.stat, "lstat": _real_os.lstat,
+    "remove": _real_os.remove, "unlink": _real_os.unlink, "rename": _real_os.rename,
+    "replace": _real_os.replace, "readlink": _real_os.readlink, "io_open": io.open,
+    "exists": posixpath.exists, "lexists": posixpath.lexists, "isfile": posixpath.isfile,
+    "isdir": posixpath.isdir, "getsize": posixpath.getsize,
+}
+
+
+class _ShimPath:
+    """posixpath with the functions that touch the filesystem routed by path."""
 
     def __init__(self, disk):
         self._disk = disk
 
-    def listdir(self, path):
+    def exists(self, path):
+        sp = _sim_path(path)
+        if sp is None:
+            return _REAL["exists"](path)
+        p = norm(sp)
+        return p in self._disk.files or p in self._disk.dirs
+
+    def lexists(self, path):
+        return self.exists(path)
+
+    def isfile(self, path):
+        sp = _sim_path(path)
+        if sp is None:
+            return _REAL["isfile"](path)
+        return norm(sp) in self._disk.files
+
+    def isdir(self, path):
+        sp = _sim_path(path)
+        if sp is None:
+            return _REAL["isdir"](path)
+        return norm(sp) in self._disk.dirs
+
+    def getsize(self, path):
+        sp = _sim_path(path)
+        if sp is None:
+            return _REAL["getsize"](path)
+        return len(self._disk.files[norm(sp)])
+
+    def __getattr__(self, name):
+        return getattr(posixpath, name)
+
+
+class _ShimOS:
+    """Stands in for the ``os`` module: file functions routed by path to the disk."""
+
+    def __init__(self, disk):
+        self._disk = disk
+        self.path = _ShimPath(disk)
+
+    def __getattr__(self, name):
+        return getattr(_real_os, name)
+
+    def listdir(self, path="."):
+        sp = _sim_path(path)
+        if sp is None:
+            return _REAL["listdir"](path)
         d = self._disk
-        p = norm(path)
+        p = norm(sp)
         d.call(LISTDIR, p)
         if p in d.files:
             raise NotADirectoryError(errno.ENOTDIR, "Not a directory", path)
@@ -148,9 +221,12 @@ class _ShimOS:
             raise FileNotFoundError(errno.ENOENT, "No such file or directory", path)
         return d.listdir(p)
 
-    def stat(self, path):
+    def stat(self, path, *a, **kw):
+        sp = _sim_path(path)
+        if sp is None:
+            return _REAL["stat"](path, *a, **kw)
         d = self._disk
-        p = norm(path)
+        p = norm(sp)
         d.call(STAT, p)
         if p in d.dirs:
             return _StatResult(_stat.S_IFDIR | 0o755)
@@ -158,37 +234,53 @@ class _ShimOS:
             return _StatResult(_stat.S_IFREG | 0o644)
         raise FileNotFoundError(errno.ENOENT, "No such file or directory", path)
 
-    lstat = stat
+    def lstat(self, path, *a, **kw):
+        if _sim_path(path) is None:
+            return _REAL["lstat"](path, *a, **kw)
+        return self.stat(path)
 
-    def readlink(self, path):
+    def readlink(self, path, *a, **kw):
+        if _sim_path(path) is None:
+            return _REAL["readlink"](path, *a, **kw)
         raise OSError(errno.EINVAL, "Invalid argument", path)
 
-    def remove(self, path):
-        self._disk.remove(path)
+    def remove(self, path, *a, **kw):
+        sp = _sim_path(path)
+        if sp is None:
+            return _REAL["remove"](path, *a, **kw)
+        self._disk.remove(sp)
 
-    unlink = remove
+    def unlink(self, path, *a, **kw):
+        return self.remove(path, *a, **kw)
 
-    def rename(self, src, dst):
-        self._disk.rename(src, dst)
+    def rename(self, src, dst, *a, **kw):
+        s1, s2 = _sim_path(src), _sim_path(dst)
+        if s1 is None and s2 is None:
+            return _REAL["rename"](src, dst, *a, **kw)
+        if s1 is None or s2 is None:
+            raise OSError(errno.EXDEV, "Invalid cross-device link", src)
+        self._disk.rename(s1, s2)
 
-    replace = rename
+    def replace(self, src, dst, *a, **kw):
+        return self.rename(src, dst)
 
 
 class _ShimIO:
-    """Stands in for the ``io`` module inside simfile._private.nativeosfs.
-    ``open`` reproduces what builtin open() builds: raw -> Buffered -> TextIOWrapper
-    with universal-newline default."""
+    """Stands in for the ``io`` module.  ``open`` reproduces what builtin open() builds:
+    raw -> Buffered -> TextIOWrapper with universal-newline default."""
 
     def __init__(self, disk):
         self._disk = disk
 
     def open(self, file, mode="r", buffering=-1, encoding=None, errors=None,
              newline=None, closefd=True, opener=None):
-        if not isinstance(file, (str, bytes)):
-            raise TypeError("invalid file: %r" % (file,))
+        sp = _sim_path(file) if not isinstance(file, int) else None
+        if sp is None:
+            return _REAL["io_open"](file, mode, buffering, encoding, errors, newline, closefd, opener)
         text = "b" not in mode
         writing = any(c in mode for c in "wax+")
-        raw = self._disk.open_raw(file, "w" if writing else "r", name=file)
+        name = _real_os.fspath(file)
+        raw = self._disk.open_raw(sp, "w" if writing else "r", name=name)
         line_buffering = False
         if buffering == 1 and text:
             buffering = -1
@@ -213,21 +305,63 @@ class _ShimIO:
 
 
 class NativeShim:
-    """Context manager installing the shim into simfile._private.nativeosfs."""
+    """Context manager that makes the native path of the library talk to the simulated
+    disk.  Two layers:
+
+    * every global ``os`` / ``io`` of the simfile package (first of all those of
+      simfile._private.nativeosfs, through which the default NativeOSFS works) is replaced
+      by a shim object;
+    * the file functions of the real ``os`` / ``io`` / ``builtins`` / ``posixpath`` modules
+      are replaced by routers, so that a call that reaches them some other way (a local
+      ``import os``, pathlib, shutil) still lands on the simulated disk when its path is
+      under SIM_ROOT - and on the real function for any other path."""
+
+    _targets = None
 
     def __init__(self, disk):
         self.disk = disk
 
+    @classmethod
+    def targets(cls):
+        if cls._targets is None:
+            import sys
+            import simfile._private.nativeosfs  # noqa: F401
+            out = []
+            for name, mod in sorted(sys.modules.items()):
+                if mod is None or not (name == "simfile" or name.startswith("simfile.")):
+                    continue
+                if ".tests" in name:
+                    continue
+                for attr, real in (("os", _real_os), ("io", io)):
+                    if getattr(mod, attr, None) is real:
+                        out.append((mod, attr, real))
+            cls._targets = out
+        return cls._targets
+
     def __enter__(self):
-        import simfile._private.nativeosfs as mod
-        self._mod = mod
-        self._saved = (mod.io, mod.os)
-        mod.io = _ShimIO(self.disk)
-        mod.os = _ShimOS(self.disk)
+        import builtins
+        shim_io, shim_os = _ShimIO(self.disk), _ShimOS(self.disk)
+        for mod, attr, real in self.targets():
+            setattr(mod, attr, shim_os if attr == "os" else shim_io)
+        self._global = []
+        for mod, name, fn in (
+                (_real_os, "listdir", shim_os.listdir), (_real_os, "stat", shim_os.stat),
+                (_real_os, "lstat", shim_os.lstat), (_real_os, "remove", shim_os.remove),
+                (_real_os, "unlink", shim_os.unlink), (_real_os, "rename", shim_os.rename),
+                (_real_os, "replace", shim_os.replace), (io, "open", shim_io.open),
+                (builtins, "open", shim_io.open),
+                (posixpath, "exists", shim_os.path.exists), (posixpath, "lexists", shim_os.path.lexists),
+                (posixpath, "isfile", shim_os.path.isfile), (posixpath, "isdir", shim_os.path.isdir),
+                (posixpath, "getsize", shim_os.path.getsize)):
+            self._global.append((mod, name, getattr(mod, name)))
+            setattr(mod, name, fn)
         return self
 
     def __exit__(self, *exc):
-        self._mod.io, self._mod.os = self._saved
+        for mod, name, orig in reversed(self._global):
+            setattr(mod, name, orig)
+        for mod, attr, real in self.targets():
+            setattr(mod, attr, real)
         return False
 
 
@@ -260,6 +394,7 @@ class Facade:
         elif self.kind == "native":
             self._shim = NativeShim(self.disk)
             self._shim.__enter__()
+            self.root = SIM_ROOT
         elif self.kind == "realos":
             import simfile._private.nativeosfs as mod
             self._mod = mod
